@@ -104,6 +104,16 @@ func (f *Frame) specCall(st *State, e *ast.CallExpr, kind string) []*Term {
 		a := f.expr(st, e.Args[0])
 		b := f.expr(st, e.Args[1])
 		return []*Term{Eq(a, b)}
+	case kind == "has":
+		m := f.expr(st, e.Args[0])
+		mt, ok := types.Unalias(f.typeOf(e.Args[0])).Underlying().(*types.Map)
+		if !ok {
+			f.fail(e, "has: not a map")
+		}
+		k := f.convertTo(st, f.expr(st, e.Args[1]), f.typeOf(e.Args[1]), mt.Key())
+		ks := c.sortOf(mt.Key())
+		dom := c.heapGet(st, f.mapHeap(mt, "dom"), ArrSort(SInt, ArrSort(ks, SBool)))
+		return []*Term{Select(Select(dom, m), k)}
 	case kind == "eq":
 		a := f.expr(st, e.Args[0])
 		b := f.expr(st, e.Args[1])
@@ -185,6 +195,16 @@ func (f *Frame) specCall(st *State, e *ast.CallExpr, kind string) []*Term {
 		return []*Term{c.strLt(f.expr(st, e.Args[0]), f.expr(st, e.Args[1]))}
 	case kind == "strLower":
 		return []*Term{c.strLower(f.expr(st, e.Args[0]))}
+	case kind == "fresh":
+		// fresh(v): the object v (value in the current state) was not yet allocated in the old state
+		if f.specOld == nil {
+			f.fail(e, "fresh() outside two-state context")
+		}
+		v := f.expr(st, e.Args[0])
+		if v.Sort == SIfc {
+			v = ifaceRef(v)
+		}
+		return []*Term{Not(Select(c.heapGet(f.specOld, "ALLOC", ArrSort(SInt, SBool)), v))}
 	case kind == "allocated":
 		v := f.expr(st, e.Args[0])
 		return []*Term{Select(c.heapGet(st, "ALLOC", ArrSort(SInt, SBool)), v)}
@@ -281,6 +301,24 @@ func (f *Frame) resolveModifies(st *State, ct *Contract) []modItem {
 			out = append(out, modItem{heap: "TX!" + m, whole: true})
 		default:
 			// x.Field  |  x.*  |  Type.Field | *p | global
+			if i := strings.LastIndex(m, "."); i > 0 {
+				if _, tinfo, terr := f.eng.checkSpecExprLoose(ct.fi.Fn.Pkg(), pos, "(*"+m[:i]+")(nil)"); terr == nil {
+					// prefix is a type: type-level field (whole heap array)
+					var tt types.Type
+					for _, tv := range tinfo.Types {
+						if tv.IsType() {
+							if pt, ok := tv.Type.(*types.Pointer); ok {
+								tt = pt.Elem()
+							}
+						}
+					}
+					if tt != nil {
+						sf0 := &Frame{c: c, eng: f.eng}
+						out = append(out, modItem{heap: sf0.fieldHeapName(tt, m[i+1:]), whole: true})
+						continue
+					}
+				}
+			}
 			ex, info, err := f.eng.checkSpecExprLoose(ct.fi.Fn.Pkg(), pos, m)
 			if err != nil {
 				panic(unsupported{fmt.Sprintf("modifies %q: %v", m, err)})
@@ -303,8 +341,16 @@ func (f *Frame) resolveModifies(st *State, ct *Contract) []modItem {
 					}
 					panic(unsupported{"modifies: cannot resolve " + m})
 				}
-				loc := sf.selectPath(st.clone(), x.X, sel.Index())
+				work := st.clone()
+				loc := sf.selectPath(work, x.X, sel.Index())
 				out = append(out, f.modFromLoc(loc, m)...)
+				// a map-typed field: its contents as well
+				if mt, ok := types.Unalias(info.Types[x].Type).Underlying().(*types.Map); ok {
+					ref := sf.load(work, loc)
+					for _, part := range []string{"dom", "val", "len"} {
+						out = append(out, modItem{heap: sf.mapHeap(mt, part), ref: ref})
+					}
+				}
 			case *ast.StarExpr:
 				work := st.clone()
 				ref := sf.expr(work, x.X)
@@ -728,6 +774,31 @@ func (f *Frame) checkFrame(st *State, entry *State, ct *Contract, ri int, where 
 		hs := c.heapSort[h]
 		name := fmt.Sprintf("%s#frame[%s]@ret%d(%s)", ct.Name, h, ri, where)
 		ks := keySort(hs)
+		// quantifier-free form when the exit value is a store/ite chain over the entry value: every written
+		// index must be one of the permitted references (or an object allocated by this call)
+		if ws, ok := c.storesOver(cur, old, 0); ok && len(ws) <= 64 {
+			var goals []*Term
+			seen := map[string]bool{}
+			for _, w := range ws {
+				k := renderTerm(w)
+				if seen[k] {
+					continue
+				}
+				seen[k] = true
+				var alts []*Term
+				if ks == SInt && !strings.HasPrefix(h, "T!") {
+					alts = append(alts, Not(Select(alloc0, w)))
+				}
+				for _, x := range refs {
+					alts = append(alts, Eq(w, x))
+				}
+				// writing back the old value is not a modification
+				alts = append(alts, Eq(Select(cur, w), Select(old, w)))
+				goals = append(goals, Or(alts...))
+			}
+			c.oblige(st, And(goals...), name, &Clause{Text: "modifies " + strings.Join(ct.Modifies, ", "), File: ct.File, Line: ct.Line})
+			continue
+		}
 		r := c.bvar("r", ks)
 		var conds []*Term
 		if ks == SInt && !strings.HasPrefix(h, "T!") {
